@@ -1,29 +1,31 @@
 import XmppModel.Model.Muc
-/-! Invariant of the MUC bookkeeping LTS. -/
+/-! Invariant of the MUC bookkeeping LTS (no hypothesis on the addresses: the code refuses a
+second channel for an occupant address that is in use). -/
 namespace XmppModel.Muc
 
-structure Inv (addr : Nat → Nat) (s : St) : Prop where
-  key : ∀ a c, s.managed a = some c → addr c = a
-  reg : ∀ c, s.joined c = true → s.managed (addr c) = some c
+structure Inv (s : St) : Prop where
+  /-- a channel is registered only under the address it holds or, while a join is in flight,
+  the address that join asked for -/
+  key : ∀ a c, s.managed a = some c → a = s.cur c ∨ (a = s.req c ∧ s.jpc c ≠ .idle)
+  /-- a joined channel is registered under the address it holds -/
+  reg : ∀ c, s.joined c = true → s.managed (s.cur c) = some c
   mem : ∀ c, s.joined c = s.memberX c
 
-theorem inv_init (addr : Nat → Nat) : Inv addr init := by
+theorem inv_init (addr0 : Nat → Nat) : Inv (init addr0) := by
   constructor <;> simp [init]
 
-theorem inv_step {addr : Nat → Nat} (hinj : ∀ c c', addr c = addr c' → c = c') {s a s'}
-    (h : Inv addr s) (hs : step addr s a = some s') : Inv addr s' := by
+theorem inv_step {s a s'} (h : Inv s) (hs : step s a = some s') : Inv s' := by
   obtain ⟨h1, h2, h3⟩ := h
   cases a <;> simp only [step] at hs
-  case invite => simp at hs; subst hs; exact ⟨h1, h2, h3⟩
+  case message cs => simp at hs; subst hs; exact ⟨h1, h2, h3⟩
   case unrelated => simp at hs; subst hs; exact ⟨h1, h2, h3⟩
   all_goals
-    (split at hs <;> (try split at hs) <;> (try simp at hs) <;> (try subst hs) <;>
+    (split at hs <;> (try split at hs) <;> (try split at hs) <;> (try simp at hs) <;> (try subst hs) <;>
       (try (constructor <;> (try simp only [upd] at *) <;> grind)))
 
-theorem inv_reach {addr : Nat → Nat} (hinj : ∀ c c', addr c = addr c' → c = c') {s}
-    (h : Reach addr s) : Inv addr s := by
+theorem inv_reach {addr0 : Nat → Nat} {s} (h : Reach addr0 s) : Inv s := by
   induction h with
-  | init => exact inv_init addr
-  | step _ hs ih => exact inv_step hinj ih hs
+  | init => exact inv_init addr0
+  | step _ hs ih => exact inv_step ih hs
 
 end XmppModel.Muc
